@@ -118,7 +118,9 @@ func main() {
 		}
 		return false
 	}
-	for it := 0; it < iters; it++ {
+	itersDone := 0
+	for it := 0; it < iters && !res.TimeUp(); it++ {
+		itersDone = it + 1
 		r := vlib.NewRand(res.Seed*1000003 + uint64(it))
 		// wait for the loop to block (most iterations) or start while it is still draining (some)
 		if r.Intn(4) != 0 {
@@ -359,7 +361,7 @@ func main() {
 	res.Obs("burst_iterations_submitted_from_the_loop", inLoopBursts)
 	res.Obs("iterations_with_io_batch_around_event_list_size", ioBatches)
 	res.Obs("iterations_with_low_priority_overflow_race", overflowRaces)
-	res.Eval(int64(iters))
+	res.Eval(int64(itersDone))
 	finish(res, sigs, idleStarts, busyStarts, bursts, selfWakeIters, pts, submitted)
 }
 
